@@ -145,6 +145,14 @@ def register (s : State) (c : Collector) : State × Option PyErr :=
   else ({ s with namesToCollectors := setAll (.coll c) names s.namesToCollectors
                  collectorToNames := dSet c names s.collectorToNames }, none)
 
+/-- the `collect()` calls `register` itself makes: `_get_names` runs `desc_func()` once, and `desc_func` is
+`collector.collect` exactly when the collector has no `describe` attribute and auto-describe is on (a separate log:
+the property speaks only about the calls of `RestrictedRegistry.collect`) -/
+def registerCalls (s : State) (c : Collector) : List Owner :=
+  match c.describe with
+  | some _ => []
+  | none => if s.autoDescribe then [.coll c] else []
+
 /-- `for name in …: del self._names_to_collectors[name]` — stops at the first missing key (`KeyError`);
 returns the dict reached and whether the loop completed -/
 def delNames : List (Name × Owner) → List Name → List (Name × Owner) × Bool
@@ -254,5 +262,14 @@ def run (s : State) : List Op → State × List (Option PyErr)
 def trace (s : State) : List Op → List (State × Option PyErr)
   | [] => []
   | op :: ops => let r := step s op; r :: trace r.1 ops
+
+/-- the `collect()` calls each call of a history makes on collectors (only `register` makes any) -/
+def stepCalls (s : State) : Op → List Owner
+  | .register c => registerCalls s c
+  | _ => []
+
+def traceCalls (s : State) : List Op → List (List Owner)
+  | [] => []
+  | op :: ops => stepCalls s op :: traceCalls (step s op).1 ops
 
 end PromVerif.Model.Registry
